@@ -33,6 +33,8 @@ import MagpyVerif.Lemmas.KernelLiterals
 import MagpyVerif.Lemmas.SegmentBS
 import MagpyVerif.Lemmas.CelAGM
 import MagpyVerif.Lemmas.Celv
+import MagpyVerif.Lemmas.CelvDiv
+import MagpyVerif.Lemmas.CelIterV
 import MagpyVerif.Lemmas.KernCylinder
 import MagpyVerif.Lemmas.KernDefined
 import MagpyVerif.Lemmas.KernCylSegDisp
@@ -341,6 +343,33 @@ theorem celv_fuel_irrelevant (n k : ℕ) (batch : List (CelArg ℝ)) (vs : List 
   rw [hv]
   unfold celv1 at hv ⊢
   exact celvDo_fuel_mono n k _ v hv
+
+/-- **no division by zero inside `celv` / `cel0`** (exact arithmetic): for `kc ≠ 0` and ARBITRARY `p`, `c`, `s` every divisor of the
+routine is positive — the prologue's `g = 1 − p` (branch `p <= 0`) and `pp` (`√p`, resp. `√((kc² − p)/(1 − p))`; divisors `s / pp`,
+`-q / (g*g*pp)`, `ss / pp`, `k / pp`), the loop's `pp` at every pass (`ss / pp`, `kk / pp`) and the return expression's
+`em * (em + pp)` at every pass.  The list of divisors is read off the source (header of Lemmas/CelvDiv.lean); the states are those of
+the model (`celvInit`, `celvStep`), and `celv_value_is_out_after_passes` says a returned value is the return expression at one of them -/
+theorem celv_divisors_nonzero (x : CelArg ℝ) (hkc : x.kc ≠ 0) :
+    (x.p ≤ 0 → 0 < 1 - x.p) ∧ 0 < (celvPre x.kc x.p x.c x.s).1 ∧
+    ∀ m, 0 < (celvStep^[m] (celvInit x)).pp ∧
+      0 < (celvStep^[m] (celvInit x)).em * ((celvStep^[m] (celvInit x)).em + (celvStep^[m] (celvInit x)).pp) := by
+  refine ⟨fun hp => by linarith, celvPre_pp_pos _ _ _ _ hkc, fun m => ?_⟩
+  obtain ⟨h1, h2, _⟩ := celvIterate_pos x hkc m
+  exact ⟨h1, by positivity⟩
+
+example : 0 < (celvPre (2 : ℝ) (-3) 1 1).1 := (celv_divisors_nonzero ⟨2, -3, 1, 1⟩ (by norm_num)).2.1
+
+/-- any carrier: a value `celv` returns for an entry is the return expression after `m ≥ 1` passes -/
+theorem celv_value_is_out_after_passes {α : Type} [Num α] (fuel : ℕ) (x : CelArg α) (v : α) (h : celv1 fuel x = some v) :
+    ∃ m, 1 ≤ m ∧ m ≤ fuel ∧ v = celvOut (celvStep^[m] (celvInit x)) :=
+  celvDo_some_spec fuel _ v h
+
+/-- the hypothesis `kc ≠ 0` of `celv_divisors_nonzero` cannot be dropped: for `kc = 0`, `p = 0` the prologue's `pp` is 0 and the next
+statements divide by it.  (On the real code `cel0` raises RuntimeError at `kc == 0` before it gets there; `celv` has no guard and
+does not return for such an entry, `celv_loops_at_zero`.  In IEEE double the same happens for `0 < |kc| < 1.5e-162`, `p = 0`, where
+`kc*kc` underflows to 0: `cel0(1e-162, 0, 1, 0.3)` returns NaN — not reachable through Cylinder, whose `kc` with `p = 0` is either
+exactly 0 or ≥ 2.2e-162) -/
+theorem celv_divisor_vanishes_at_zero (c s : ℝ) : (celvPre 0 0 c s).1 = 0 := celvPre_pp_zero c s
 
 /-- the hypothesis `kc ≠ 0` of `celv_terminates` cannot be dropped, and one such entry is enough: a batch that
 contains an entry with `kc = 0` never leaves the loop, whatever the other entries are (its `k` stays 0 and its `g`
